@@ -105,7 +105,16 @@ def run(v, tier, seed, g):
                             {"case": r["id"], "code": r["code"], "descriptor": {k: d[k] for k in d if k != "points"}})
     if not g["ok"] and not v.violations:
         v.violation("gate", "proof obligations no longer check: " + "; ".join(g["broken"]), {"broken": g["broken"]}, no_input=True)
-    cov = {"checker_cmd": f"./check C04 --tier {tier}", "trusted_base": valprops.ORACLE_TRUST + ["Coq kernel (Flatten.v)", "cffi/gcc for reading the compiled descriptor"],
+    import midxcorr
+    mc = midxcorr.run(seed, 300 if tier == "quick" else 3000)
+    v.oblige(mc["compared"] > 0 and mc["equal"] == mc["compared"], max(mc["compared"], 1))
+    if mc.get("error"):
+        v.violation("c04-multiindex-model", "the MultiIndex correspondence could not be evaluated: " + mc["error"], {}, no_input=True)
+    for bad in mc["bad"][:2]:
+        v.violation(f"c04-multiindex:{bad['sizes']}", f"lnodes.MultiIndex(symbols, sizes={bad['sizes']}).global_index is not the index expression of the model MIdx.global_index "
+                    "(whose value is proved to be the row-major position)", bad, no_input=True)
+    v.notes["multiindex_correspondence"] = {k: mc.get(k) for k in ("compared", "equal", "dims")}
+    cov = {"checker_cmd": f"./check C04 --tier {tier}", "trusted_base": valprops.ORACLE_TRUST + ["Coq kernel (Flatten.v, MIdx.v)", "tr_smart.py + midxcorr.py (MultiIndex construction through the translated overloads)", "cffi/gcc for reading the compiled descriptor"],
            "programs": st["cases"], "disagreements_checked": st["agree"] + st["mismatch"], "evaluations": st["agree"] + st["mismatch"] + ndesc,
            "distinct_nontrivial": st["distinct"], "oracle": st, "descriptors": ndesc,
            "rule": "expressions of rank 0/1, scalar/vector/tensor shape, cell points and facet points with every local facet index, affine and non-affine geometry",
